@@ -26,6 +26,8 @@ SEMANTIC = (
     'loop invariant',
     'might not',
     'post-condition',
+    'precondition not met',
+    'in bounds',
     'pre-condition',
 )
 
